@@ -5,10 +5,13 @@ import J5V.Walker.Typing
 `MSpec env m pre post epost`: from a well-typed state (`TreeOK`) satisfying `pre`, the computation `m`
 does not panic; a result `a` comes with a well-typed final state that extends the initial one (`Ext`)
 and satisfies `post a initial final`; an error satisfies `epost`. Rules: `pure`, `throw`, `panic`
-(dead arm), `lift`, `bind` (ghost initial state), `conseq` / `weaken_pre` / `weaken_err`, `and`,
-`keep_pre`, `frame` (predicates stable along `Ext`), `assume`, `mapErr`, `addPosition`, `getNode`,
-`setNode`, `ite`; eliminations `ok`, `err`, `no_panic`; introduction `intro`.
-`NoPos e`: the error carries no position.
+(dead arm), `lift`, `bind` (ghost initial state), `bind_from` (= weaken the precondition, then `bind`),
+`conseq` / `weaken_pre` / `weaken_err`, `and`, `keep_pre`, `frame` / `inv` (predicates stable along
+`Ext`), `assume`, `of_pre` (a state-independent fact drawn from the precondition), `mapErr`,
+`addPosition`, `getNode`, `setNode`, `ite`; eliminations `ok`, `err`, `no_panic`; introduction `intro`.
+(`tryCatch`, `errAt`, `wrapErr`: `WalkRules.lean`.)
+`NoPos e`: the error carries no position; `PosIn S e`: no position or one of `S`; `HasPosIn S e`: a
+position of `S`.
 -/
 namespace J5V.Walker
 
@@ -209,6 +212,18 @@ theorem weaken_err {m : M α} {pre : Node → Prop} {post : α → Node → Node
     MSpec env m pre post epost' :=
   h.conseq (fun _ _ hp => hp) (fun _ _ _ _ _ _ _ hp => hp) he
 
+/-- sequencing after weakening the precondition to what the first part needs (`pre0`); the
+continuation then starts from `pre0 st0`, `Ext env st0 st1` and the first postcondition -/
+theorem bind_from {m : M α} {f : α → M β} {pre pre0 : Node → Prop} {post1 : α → Node → Node → Prop}
+    {post2 : β → Node → Node → Prop} {epost : WErr → Prop}
+    (hpre : ∀ st, TreeOK env st → pre st → pre0 st)
+    (hm : MSpec env m pre0 post1 epost)
+    (hf : ∀ a st0, MSpec env (f a)
+      (fun st1 => TreeOK env st0 ∧ pre0 st0 ∧ Ext env st0 st1 ∧ post1 a st0 st1)
+      (fun b _ st2 => post2 b st0 st2) epost) :
+    MSpec env (m >>= f) pre post2 epost :=
+  (bind hm hf).weaken_pre hpre
+
 /-- conjunction of two specs of the same computation -/
 theorem and {m : M α} {pre1 pre2 : Node → Prop} {post1 post2 : α → Node → Node → Prop}
     {epost1 epost2 : WErr → Prop}
@@ -238,6 +253,12 @@ theorem frame {m : M α} {pre : Node → Prop} {post : α → Node → Node → 
     (h : MSpec env m pre post epost) (hR : ∀ st st', R st → Ext env st st' → R st') :
     MSpec env m (fun st => pre st ∧ R st) (fun a st st' => post a st st' ∧ R st') epost :=
   h.conseq (fun _ _ hp => hp.1) (fun _ _ _ _ hp _ he hq => ⟨hq, hR _ _ hp.2 he⟩) (fun _ he => he)
+
+/-- an invariant stable along `Ext` holds again afterwards -/
+theorem inv {m : M α} {Inv : Node → Prop} {post : α → Node → Node → Prop} {epost}
+    (h : MSpec env m Inv post epost) (hI : ∀ st st', Inv st → Ext env st st' → Inv st') :
+    MSpec env m Inv (fun a st st' => post a st st' ∧ Inv st') epost :=
+  h.conseq (fun _ _ hp => hp) (fun _ _ _ _ hp _ he hq => ⟨hq, hI _ _ hp he⟩) (fun _ he => he)
 
 /-- the precondition may assume a pure fact -/
 theorem assume {m : M α} {P : Prop} {pre : Node → Prop} {post : α → Node → Node → Prop} {epost}
